@@ -46,6 +46,47 @@ theorem C17_union (gs : List (List Char)) (tss : List (List Tok)) (r : RE) (p : 
   · rintro ⟨ts, hts, h⟩
     exact ⟨_, ⟨ts, hts, rfl⟩, (M_compileToks ts _ _ _).mpr h⟩
 
+/-- C17 for every list, empty or not: the only thing an empty set accepts is the empty path. -/
+theorem C17_set_general (tss : List (List Tok)) (p : List Char) :
+    matchString (compileSet tss) p = true ↔ (tss = [] ∧ p = []) ∨ ∃ ts ∈ tss, globMatch ts p := by
+  rw [matchString_iff]
+  cases tss with
+  | nil =>
+    simp only [compileSet, List.isEmpty_nil, ↓reduceIte]
+    rw [Matches_anchored]
+    simp [M]
+  | cons t tss =>
+    simp only [compileSet, List.isEmpty_cons, Bool.false_eq_true, ↓reduceIte]
+    rw [Matches_anchored, M_altAll]
+    simp only [List.mem_map, reduceCtorEq, false_and, false_or]
+    constructor
+    · rintro ⟨_, ⟨ts, hts, rfl⟩, h⟩
+      exact ⟨ts, hts, (M_compileToks ts _ _ _).mp h⟩
+    · rintro ⟨ts, hts, h⟩
+      exact ⟨_, ⟨ts, hts, rfl⟩, (M_compileToks ts _ _ _).mpr h⟩
+
+/-- `glob(include, exclude)` selects exactly the files matched whole by some include pattern and by no exclude
+pattern — for every pair of lists, including empty ones, because a file's relative path is never empty. -/
+theorem C17_select (inc exc : List (List Tok)) (files : List (List Char)) (hne : ∀ f ∈ files, f ≠ [])
+    (p : List Char) :
+    p ∈ globSelect (compileSet inc) (compileSet exc) files ↔
+      p ∈ files ∧ (∃ ts ∈ inc, globMatch ts p) ∧ ¬ ∃ ts ∈ exc, globMatch ts p := by
+  simp only [globSelect, List.mem_filter, Bool.and_eq_true, Bool.not_eq_true', ← Bool.not_eq_true,
+    C17_set_general]
+  constructor
+  · rintro ⟨hf, hi, he⟩
+    have hp := hne p hf
+    refine ⟨hf, ?_, ?_⟩
+    · rcases hi with ⟨_, h⟩ | h
+      · exact absurd h hp
+      · exact h
+    · intro h; exact he (Or.inr h)
+  · rintro ⟨hf, hi, he⟩
+    refine ⟨hf, Or.inr hi, ?_⟩
+    rintro (⟨_, h⟩ | h)
+    · exact hne p hf h
+    · exact he h
+
 /-- The excluded point of `C17_union`, decided rather than hidden: an empty set compiles to `^(?:)$`,
 which accepts the empty path and nothing else (no caller can present the empty path; see DESIGN.md §4). -/
 theorem C17_empty_set (p : List Char) : matchString (compileSet []) p = true ↔ p = [] := by
@@ -106,5 +147,8 @@ example : lexAll ["*.go".toList, "src/**/?.md".toList, "a\\*b[".toList] =
          [.ch 'a', .ch '*', .ch 'b', .ch '[']] := by decide
 example : ∃ r, compileGlobs ["*.go".toList, "*.md".toList] = .ok r ∧
     matchString r "x/a.md".toList = false ∧ matchString r "a.md".toList = true := ⟨_, rfl, by decide, by decide⟩
+
+example : globSelect (compileSet [[.dstar]]) (compileSet [[.ch 'v'], [.star, .ch '.', .ch 'o']])
+    ["v/x".toList, "a.o".toList, "d/a.o".toList, "v".toList] = ["v/x".toList, "d/a.o".toList] := by decide
 
 end Dawn.Glob
